@@ -52,7 +52,11 @@ var (
 func main() {
 	repo := flag.String("repo", "/repo", "repository root")
 	out := flag.String("out", "", "output directory")
+	target := flag.String("target", "", "directory the Go build sees (overlay keys); default = -repo")
 	flag.Parse()
+	if *target == "" {
+		*target = *repo
+	}
 
 	if *out == "" {
 		fatal("missing -out")
@@ -118,12 +122,15 @@ func main() {
 
 		if !ok {
 			rep.UninstrumentedFiles = append(rep.UninstrumentedFiles, name)
+			if *target != *repo {
+				full[filepath.Join(*target, name)] = filepath.Join(*repo, name)
+			}
 			continue
 		}
 
 		dst := filepath.Join(*out, "full", name)
 		must(os.WriteFile(dst, buf.Bytes(), 0o644))
-		full[filepath.Join(*repo, name)] = dst
+		full[filepath.Join(*target, name)] = dst
 	}
 
 	for _, s := range sites {
@@ -138,11 +145,16 @@ func main() {
 	// Hook files.
 	hookFull := filepath.Join(*out, "full", "zz_mc_hooks.go")
 	must(os.WriteFile(hookFull, []byte(hookSource(true)), 0o644))
-	full[filepath.Join(*repo, "zz_mc_hooks.go")] = hookFull
+	full[filepath.Join(*target, "zz_mc_hooks.go")] = hookFull
 
 	hookStub := filepath.Join(*out, "stub", "zz_mc_hooks.go")
 	must(os.WriteFile(hookStub, []byte(hookSource(false)), 0o644))
-	stub := map[string]string{filepath.Join(*repo, "zz_mc_hooks.go"): hookStub}
+	stub := map[string]string{filepath.Join(*target, "zz_mc_hooks.go"): hookStub}
+	if *target != *repo {
+		for _, n := range names {
+			stub[filepath.Join(*target, n)] = filepath.Join(*repo, n)
+		}
+	}
 
 	writeJSON(filepath.Join(*out, "full.json"), map[string]any{"Replace": full})
 	writeJSON(filepath.Join(*out, "stub.json"), map[string]any{"Replace": stub})
